@@ -58,7 +58,7 @@ type Proof struct {
 }
 
 func (p *Proof) IsValid(public Public) bool {
-	if p == nil {
+	if p == nil || p.Commitment == nil || p.Bx == nil || p.E == nil || p.S == nil || p.Z1 == nil || p.Z2 == nil {
 		return false
 	}
 	if !arith.IsValidNatModN(public.Verifier.N(), p.W) {
